@@ -264,6 +264,8 @@ def _run_hyp_shard(args):
 
     try:
         for _round in range(MAX_BUCKETS):
+            # only the first failure of a shard is shrunk (the shrinker may take minutes); further root causes are reported unshrunk
+            phases = [Phase.generate, Phase.shrink] if _round == 0 else [Phase.generate]
             test = given(strat)(body)
             test = hypothesis.seed(shard_seed)(test)
             test = settings(max_examples=n_examples, deadline=None, database=None, derandomize=False,
